@@ -3,6 +3,8 @@ package ast
 import "github.com/xjslang/xjs/token"
 
 func (cw *CodeWriter) AddMapping(pos token.Position) {
+	// pending layout belongs in front of the token the mapping is for
+	cw.flushPending()
 	if cw.Mapper == nil {
 		return
 	}
@@ -10,6 +12,7 @@ func (cw *CodeWriter) AddMapping(pos token.Position) {
 }
 
 func (cw *CodeWriter) AddNamedMapping(sourceLine, sourceColumn int, name string) {
+	cw.flushPending()
 	if cw.Mapper == nil {
 		return
 	}
